@@ -232,6 +232,22 @@ theorem roundtrip_parameters (st : List (Param × PyVal)) (subset : Option (List
       obtain ⟨h1, h2, h3, h4⟩ := h pv hpv
       exact roundtrip_partial pv.1 pv.2 h1 h2 h3 h4)
 
+/-- **C15 (a text read back with a narrower subset).**  The full text of `serialize_parameters()`
+(or one written with subset `s1`) deserialized with `subset = s2` yields exactly the arguments of
+the parameters selected by both — nothing outside `s2` is carried over, raw or otherwise. -/
+theorem roundtrip_parameters_narrowed (st : List (Param × PyVal)) (s1 s2 : Option (List String))
+    (hnd : ((st.map (·.1)).map (·.name)).Nodup) (h : ∀ pv ∈ st, EntryOK pv) :
+    ∃ fields, serializeParameters st s1 = .ok fields ∧
+      deserializeFields (st.map (·.1)) s2 fields =
+        .ok ((st.filter (fun pv => inSubset s1 pv.1.name && inSubset s2 pv.1.name)).map
+              (fun pv => (pv.1.name, pv.2))) := by
+  obtain ⟨fields, h1, _, h3⟩ := roundtrip_fields₂ (st.map (·.1)) s1 s2 st
+    (fun pv hpv => findParam_of_nodup _ hnd pv.1 (List.mem_map.2 ⟨pv, hpv, rfl⟩))
+    (fun pv hpv => by
+      obtain ⟨h1, h2, h3, h4⟩ := h pv hpv
+      exact roundtrip_partial pv.1 pv.2 h1 h2 h3 h4)
+  exact ⟨fields, h1, h3⟩
+
 /-- the deserialized arguments are accepted by the constructor: each is the valid value it was -/
 theorem rebuilt_arguments_valid (st : List (Param × PyVal)) (subset : Option (List String))
     (h : ∀ pv ∈ st, EntryOK pv) :
